@@ -1,5 +1,6 @@
 import TdVerif.Sexp
 import TdVerif.Model.C12Chunk
+import TdVerif.Model.C12Iter
 import TdVerif.Model.C12Pool
 import TdVerif.Model.C12Tensor
 
@@ -133,6 +134,26 @@ def handleC12 (cmd : String) (args : List Sexp) : Option Sexp :=
           | some rows => .list (rows.map rowToSexp)
         pure (tagged "ok" [r, .list (out'.map rowToSexp)])
       | .error e => pure (tagged "err" [.atom (mapErrAtom e)])
+  -- (c12.mapiter n cs nc w gen (noneAt…)) -> (ok item…) each item `none` or the tagged rows of one chunk | (err kind)
+  | "c12.mapiter", [n, cs, nc, w, gen, .list noneAt] => do
+      let n ← asNat? n; let cs ← asOptNat? cs; let nc ← asOptNat? nc; let w ← asNat? w; let gen ← asBool? gen
+      let noneAt ← nats? noneAt
+      match mapIterModel (List.range n) cs nc w gen (tagFn noneAt) with
+      | .ok ys => pure (tagged "ok" (ys.map fun y => match y with
+          | none => Sexp.atom "none"
+          | some rows => .list (rows.map rowToSexp)))
+      | .error (.split e) => pure (tagged "err" [.atom (splitErrAtom e)])
+      | .error .shuffleEager => pure (tagged "err" [.atom "shuffle-eager"])
+  -- (c12.mapitershuffle n cs nc w gen (rp…) (order…)) -> (ok (rows of chunk…)…) | (err kind)
+  | "c12.mapitershuffle", [n, cs, nc, w, gen, .list rp, .list order] => do
+      let n ← asNat? n; let cs ← asOptNat? cs; let nc ← asOptNat? nc; let w ← asNat? w; let gen ← asBool? gen
+      let rp ← nats? rp; let order ← nats? order
+      match mapIterShuffleModel (List.range n) cs nc w gen rp order (fun x => some x) with
+      | .ok ys => pure (tagged "ok" (ys.map fun y => match y with
+          | none => Sexp.atom "none"
+          | some rows => ofNats rows))
+      | .error (.split e) => pure (tagged "err" [.atom (splitErrAtom e)])
+      | .error .shuffleEager => pure (tagged "err" [.atom "shuffle-eager"])
   -- (c12.mappinned n cs (noneAt…)): the reassembly loop of the pinned tree (regression anchor)
   | "c12.mappinned", [n, cs, .list noneAt] => do
       let n ← asNat? n; let cs ← asNat? cs; let noneAt ← nats? noneAt
